@@ -1,20 +1,28 @@
 """C09 — CDS valuation is consistent and the bootstrapped credit curve reprices its CDS.
 
 Theorems: FinVerif/Props/C09.lean (value decomposition, long = -short, linearity, dirty - clean = accrued,
-par spread zeroes the clean PV, locality of both legs, flat-forward survival kernel monotone / in (0,1] / starts at 1).
-Model: FinVerif/Model/C09.lean (+C09F Float glue, `_uinterpolate` FLAT_FWD branch as coded), run as `c09driver`
-against `_risky_pv01_numba` / `_prot_leg_pv_numba` called directly with arrays.  Direct oracles on full CDS / CDSCurve."""
+par spread zeroes the clean PV, locality of both legs, flat-forward survival kernel monotone / in (0,1] / starts at 1),
+C09b.lean (bootstrap `_build_curve` as a fold with the solver as a parameter: earlier knots never rewritten, every quoted
+CDS repriced within the solver's post-condition on the final curve, par spread = quote, survival locality, starts at 1),
+C09c.lean (protection-leg scheme as coded: sign, bound (1-R)(1-Q(T)), exact flat-hazard closed form for every step count,
+monotone in the hazard, zero hazard, recovery linearity), C09d.lean (accrual-on-default sign/bound, annuity sandwich,
+zero hazard, clean price / premium leg / upfront identities, flat knots interpolate to the exponential).
+Model: FinVerif/Model/C09.lean + C09Boot.lean (+C09F Float glue), run as `c09driver` against `_risky_pv01_numba` /
+`_prot_leg_pv_numba` called directly with arrays (ops RPV, PROT), against the CDS object's methods for every premium-leg
+convention (op VAL; the accrued fraction is the contract's own day-count fraction computed by the harness) and against the
+real `_build_curve` with the solver call intercepted (op BOOT).  Direct oracles on full CDS / CDSCurve."""
 import json
 import math
 import os
 import sys
+import warnings
 
 sys.path.insert(0, os.path.dirname(os.path.dirname(os.path.abspath(__file__))))
 import common as C  # noqa: E402
 import exedriver    # noqa: E402
 from floatcmp import f2b, b2f, close  # noqa: E402
 
-PROPS = ['FinVerif.Props.C09']
+PROPS = ['FinVerif.Props.C09', 'FinVerif.Props.C09b', 'FinVerif.Props.C09c', 'FinVerif.Props.C09d']
 DRIVERS = ['FinVerif.Driver.C09']
 MEASURE = bool(os.environ.get('C09_MEASURE'))
 RULE = ('seeded CDS curves: valuation dates on and +-1..3 days around the 20 Mar/Jun/Sep/Dec rolls and random dates, tenor '
@@ -22,8 +30,12 @@ RULE = ('seeded CDS curves: valuation dates on and +-1..3 days around the 20 Mar
         'flat discount rates -1%..8%; for each curve every input CDS is repriced and a second CDS with a different coupon, '
         'notional and direction is valued; both kernels are called directly with the arrays and compared with the Lean '
         'model. Re-use: the same CDS objects are used on two valuation dates / with two curves (bootstrap and mark-to-market) '
-        'and every observable is compared, exactly, with freshly constructed identical contracts. Non-trivial = curve with '
-        '>= 2 instruments; cases are distinct draws of one PRNG stream.')
+        'and every observable is compared, exactly, with freshly constructed identical contracts. Conventions: curves of 1-4 '
+        'quotes and a trade whose premium-leg day count is drawn from every DayCountTypes member a CDS accepts (all but '
+        'ACT_ACT_ICMA), frequency from every FrequencyTypes member with a period, all 15 calendars, all 5 business-day rules, '
+        'both date-generation rules, long/short, step-in on or 1..45 days after the valuation date, IMM and off-cycle '
+        'maturities (incl. single-coupon contracts); each curve is bootstrapped with the solver call intercepted. Non-trivial '
+        '= curve with >= 2 instruments; cases are distinct draws of one PRNG stream per component.')
 
 
 def arr(a):
@@ -196,6 +208,25 @@ def run(ctx):
     ctx.cov['components']['CDSCurve_bootstrap_and_identities']['bootstrap_failed'] = failed
 
     reuse_oracle(ctx, see, quick)
+    conv_ops, conv_checks = conventions_oracle(ctx, see, quick)
+
+    if drivers_ok and conv_ops:
+        try:
+            outs = exedriver.run('c09driver', 'C09', conv_ops)
+        except C.DriverError as e:
+            outs = None
+            ctx.broke(f'model driver failed on VAL/BOOT ops: {str(e)[:300]}')
+        if outs is not None:
+            nbad = {}
+            for o, (comp, chk) in zip(outs, conv_checks):
+                got = [b2f(x) for x in o.split()] if not o.startswith('bad') else None
+                msg = chk(got, see)
+                if msg:
+                    nbad[comp] = nbad.get(comp, 0) + 1
+                    if nbad[comp] <= 2:
+                        ctx.broke(f'correspondence {comp}: {msg}'[:900])
+            ctx.count('objects_and_bootstrap_vs_model', len(conv_ops), len(conv_ops))
+            ctx.cov['components']['objects_and_bootstrap_vs_model']['disagree_model'] = sum(nbad.values())
 
     if drivers_ok and ops:
         try:
@@ -218,6 +249,8 @@ def run(ctx):
             ctx.cov['components']['kernels_vs_model']['disagree_model'] = sum(nbad.values())
 
     if MEASURE:
+        with open(os.path.join(C.CACHE, 'c09_violations.json'), 'w') as fh:
+            json.dump(ctx.violations, fh, default=str)
         for k in sorted(worst):
             print(f'MEASURE {k:40s} {worst[k]:.3e}')
     ctx.cov['measured_worst'] = {k: float(f'{v:.3e}') for k, v in sorted(worst.items())}
@@ -230,6 +263,12 @@ def run(ctx):
         'interpolator is local is C02',
         'history independence of CDS objects (no state carried between valuations) is checked by the re-use oracle on sampled '
         'date pairs only; the general discipline is C18',
+        'bootstrap theorems (C09b) take the solver as a parameter: SolverOK = the post-condition |f(x)| <= eps held at every '
+        'solver call of the run, x = the value left in the knot; and WF = every time at which a quoted contract reads the '
+        'survival curve lies in [0, its own maturity knot] (false when the maturity date is rolled forward: known finding '
+        'C09/rolled-last-coupon-reads-beyond-own-knot)',
+        'C09c/C09d read log/exp/abs as the real functions (opsR); sign/bound theorems assume positive, non-increasing '
+        'survival (and, for upper bounds, discount) curves from the step-in time on',
     ]
     return C.finish(ctx, 'proof', 'lake build FinVerif.Props.C09 && lake env lean .cache/audit/Audit_C09.lean',
                     C.TRUSTED_BASE_COMMON + ['hand-written model FinVerif/Model/C09.lean + C09F.lean tied to the Numba kernels by this run'],
@@ -372,6 +411,373 @@ def reuse_oracle(ctx, see, quick):
     ctx.cov['components']['reuse_of_contract_objects']['skipped_bootstrap_failed'] = skipped
 
 
+# ----------------------------------------------------------------------------------------------------------------------
+# conventions: every premium-leg convention a CDS accepts, non-standard step-in dates, off-cycle maturities; the bootstrap
+# with the solver call intercepted
+FINDING_SINGLE = 'C09/single-coupon-year-fracs-out-of-bounds'
+FINDING_ROLLED = 'C09/rolled-last-coupon-reads-beyond-own-knot'
+FINDING_MISINDEX = 'C09/annuity-accrual-factor-misindexed'
+FINDING_ZEROACC = 'C09/zero-accrual-period-divides-by-zero'
+
+
+def _conv_enums():
+    from financepy.utils.day_count import DayCountTypes
+    from financepy.utils.frequency import FrequencyTypes
+    from financepy.utils.calendar import CalendarTypes, BusDayAdjustTypes, DateGenRuleTypes
+    dcs = [d for d in DayCountTypes if d != DayCountTypes.ACT_ACT_ICMA]     # CDS() raises FinError for ACT_ACT_ICMA
+    freqs = [f for f in FrequencyTypes if f not in (FrequencyTypes.CONTINUOUS, FrequencyTypes.SIMPLE)]  # no period
+    return dcs, freqs, list(CalendarTypes), list(BusDayAdjustTypes), list(DateGenRuleTypes)
+
+
+def _mk_cds(step_in, spec):
+    """spec = {'maturity': [d,m,y], 'coupon', 'notional', 'long', 'freq', 'dc', 'cal', 'bd', 'dg'} (enum values)"""
+    from financepy.utils.date import Date
+    from financepy.utils.day_count import DayCountTypes
+    from financepy.utils.frequency import FrequencyTypes
+    from financepy.utils.calendar import CalendarTypes, BusDayAdjustTypes, DateGenRuleTypes
+    from financepy.products.credit.cds import CDS
+    return CDS(step_in, Date(*spec['maturity']), spec['coupon'], spec['notional'], spec['long'], FrequencyTypes(spec['freq']),
+               DayCountTypes(spec['dc']), CalendarTypes(spec['cal']), BusDayAdjustTypes(spec['bd']), DateGenRuleTypes(spec['dg']))
+
+
+def _record_build(vd, contracts, libor, rec):
+    """CDSCurve(vd, contracts, libor, rec) with `scipy.optimize.newton` as seen by cds_curve.py intercepted: per solver
+    call the start value, the objective at two probe points, the value left in the knot, the objective there, and the
+    returned root."""
+    import types
+    import financepy.products.credit.cds_curve as cc
+    calls = []
+    real = cc.optimize
+
+    def newton(f, x0=None, fprime=None, args=(), tol=1.48e-8, maxiter=50, fprime2=None, **kw):
+        curve = args[0]
+        probes = [float(x0) * 0.97, float(x0) * 0.999]
+        fp = [float(f(q, *args)) for q in probes]
+        root = real.newton(f, x0=x0, fprime=fprime, args=args, tol=tol, maxiter=maxiter, fprime2=fprime2, **kw)
+        left = float(curve._values[-1])
+        calls.append({'x0': float(x0), 'probes': probes, 'f_probes': fp, 'left': left, 'f_left': float(f(left, *args)),
+                      'root': float(root), 'tol': tol, 'n_knots': len(curve._times)})
+        return root
+    cc.optimize = types.SimpleNamespace(newton=newton)
+    try:
+        curve = cc.CDSCurve(vd, contracts, libor, rec)
+    finally:
+        cc.optimize = real
+    return curve, calls
+
+
+def _contract_arrays(c, vd):
+    """what CDS.risky_pv01 / prot_leg_pv hand to the kernels, with the accrual fractions recomputed by the harness from
+    the contract's own day count"""
+    from financepy.utils.day_count import DayCount
+    from financepy.utils.global_vars import g_days_in_year
+    dc = DayCount(c.dc_type)
+    pt = [(d - vd) / g_days_in_year for d in c.payment_dts if (d - vd) / g_days_in_year > 0.0]
+    yf = [dc.year_frac(a, b.add_days(1))[0] for a, b in zip(c.accrual_start_dts, c.accrual_end_dts)]
+    acc = dc.year_frac(c.accrual_start_dts[0], c.step_in_dt)[0]
+    teff = (c.step_in_dt - vd) / g_days_in_year
+    tmat = (c.maturity_dt - vd) / g_days_in_year
+    return pt, yf, acc, teff, tmat
+
+
+def _conv_eval(case, want_ops=True):
+    """Rebuild the case from its JSON description, run every direct oracle; returns (failures, ops, checks, stats).
+    failure = (clause, what, details, finding-or-None).  Used by run() and replay()."""
+    import numpy as np
+    from financepy.utils.date import Date
+    from financepy.utils.day_count import DayCount
+    from financepy.market.curves.interpolator import _uinterpolate, InterpTypes
+    from financepy.market.curves.discount_curve_flat import DiscountCurveFlat
+    fails, ops, checks, stats = [], [], [], {}
+    vd, step_in = Date(*case['value_dt']), Date(*case['step_in_dt'])
+    rec, rate = case['recovery'], case['flat_rate']
+    libor = DiscountCurveFlat(vd, rate)
+    lt, ld = np.array(libor._times, float), np.array(libor._dfs, float)
+    quotes = [_mk_cds(step_in, q) for q in case['quotes']]
+    n_pay = [len([d for d in c.payment_dts if d > vd]) for c in quotes]
+    single_q = any(n == 1 for n in n_pay)
+
+    def misindexed(c):
+        # the kernel weights the first coupon with year_fracs[1]: material when the second period is not a regular one
+        pt, yf, _, _, _ = _contract_arrays(c, vd)
+        return len(pt) >= 2 and len(yf) >= 2 and (len(yf) != len(pt) or abs(yf[1] - yf[0]) > 5.0 / 360.0)
+    mis_q = any(misindexed(c) for c in quotes)
+
+    def exc_finding(cs, e):
+        if isinstance(e, ZeroDivisionError) and any(af <= 0.0 for c in cs for af in c.accrual_factors):
+            return FINDING_ZEROACC
+        if isinstance(e, ZeroDivisionError) and max(q['coupon'] for q in case['quotes']) / (1 - rec) > 0.15:
+            return 'C09/bootstrap-raises-at-distressed-spreads'
+        if isinstance(e, RuntimeError) and 'converge' in str(e) and any(misindexed(c) for c in cs) and not single_q:
+            return FINDING_MISINDEX      # the mis-weighted first coupon leaves an annuity so small that the secant search finds no root
+        return FINDING_SINGLE if any(len([d for d in c.payment_dts if d > vd]) == 1 for c in cs) else None
+    try:
+        curve, calls = _record_build(vd, quotes, libor, rec)
+    except Exception as e:  # noqa: BLE001
+        fails.append(('conv-bootstrap-completes', f'CDSCurve bootstrap raised {type(e).__name__}: {e}',
+                      {'accrual_factors_tail': [c.accrual_factors[-2:] for c in quotes]}, exc_finding(quotes, e)))
+        return fails, ops, checks, stats
+    times, vals = np.array(curve._times, float), np.array(curve._values, float)
+    method = InterpTypes.FLAT_FWD_RATES.value
+
+    def Qf(t):
+        return float(_uinterpolate(float(t), times, vals, method))
+
+    def Zf(t):
+        return float(_uinterpolate(float(t), lt, ld, method))
+
+    # ---- survival shape
+    grid = np.linspace(0.0, float(times[-1]) + 2.0, 80)
+    qs = [Qf(t) for t in grid]
+    inc = max(qs[i + 1] - qs[i] for i in range(len(qs) - 1))
+    shape_ok = not (Qf(0.0) != 1.0 or inc > 1e-12 or min(qs) <= 0.0 or max(qs) > 1.0 + 1e-12 or any(v != v for v in qs))
+    if not shape_ok:
+        fails.append(('conv-survival-monotone', 'bootstrapped survival curve does not start at 1 / is not non-increasing within (0,1]',
+                      {'knots': vals.tolist(), 'max_increase': inc, 'min': min(qs), 'max': max(qs)},
+                      FINDING_SINGLE if single_q else FINDING_MISINDEX if mis_q else None))
+    # ---- every quoted contract repriced by the final curve; locality against the pass that solved it
+    for i, (c, q, call) in enumerate(zip(quotes, case['quotes'], calls)):
+        s = q['coupon']
+        ps = float(c.par_spread(vd, curve, rec))
+        v = c.value(vd, curve, rec)
+        prot = abs(float(c.prot_leg_pv(vd, curve, rec)))
+        scale = prot + abs(s * c.notional * float(c.risky_pv01(vd, curve)['dirty_rpv01'])) + 1e-300
+        rolled = c.payment_dts[-1] > c.maturity_dt
+        later = i < len(quotes) - 1
+        stats['conv.reprice.rel'] = max(stats.get('conv.reprice.rel', 0.0), abs(ps - s) / s)
+        if not (abs(ps - s) <= 2e-4 * s + 1e-7):
+            fails.append(('conv-reprices', 'bootstrapped curve does not return the input spread as par spread',
+                          {'contract': i, 'quote': s, 'par_spread': ps, 'knots': vals.tolist(), 'maturity': str(c.maturity_dt),
+                           'last_payment': str(c.payment_dts[-1]), 'clean_pv_when_solved': call['f_left']},
+                          FINDING_SINGLE if (n_pay[i] == 1 or single_q) else
+                          FINDING_ROLLED if (rolled and later and abs(ps - s) <= 1e-3 * s and abs(call['f_left']) <= 2e-7 * c.notional) else
+                          FINDING_MISINDEX if (misindexed(c) and abs(call['f_left']) <= 2e-7 * c.notional) else None))
+        drift = abs(float(v['clean_pv']) - call['f_left'])
+        key = 'conv.locality.rolled' if rolled else 'conv.locality.wf'
+        stats[key] = max(stats.get(key, 0.0), drift / scale)
+        if not (drift <= 1e-9 * scale):
+            fails.append(('conv-locality', 'clean PV of a quoted CDS on the final curve differs from its clean PV when its own pillar '
+                          'was solved: later pillars changed the valuation of an earlier instrument',
+                          {'contract': i, 'maturity': str(c.maturity_dt), 'last_payment': str(c.payment_dts[-1]),
+                           'clean_pv_when_solved': call['f_left'], 'clean_pv_final': float(v['clean_pv']),
+                           'relative_to_legs': drift / scale},
+                          FINDING_ROLLED if (rolled and later and drift <= 1e-3 * scale) else
+                          FINDING_SINGLE if single_q else None))
+        stats['conv.knot-minus-returned-root'] = max(stats.get('conv.knot-minus-returned-root', 0.0), abs(call['left'] - call['root']))
+    # ---- the trade and every quote: identities with the accrued fraction computed independently
+    trade = _mk_cds(step_in, case['trade'])
+    for who, c in [('trade', trade)] + [(f'quote[{i}]', c) for i, c in enumerate(quotes)]:
+        pt, yf, acc, teff, tmat = _contract_arrays(c, vd)
+        single = len(pt) == 1
+        fnd = FINDING_SINGLE if single else None
+        try:
+            v = c.value(vd, curve, rec)
+            rp = c.risky_pv01(vd, curve)
+            prot = float(c.prot_leg_pv(vd, curve, rec))
+            ps = float(c.par_spread(vd, curve, rec))
+            prem = float(c.premium_leg_pv(vd, curve))
+            cpx = float(c.clean_price(vd, curve, rec))
+            ai = float(c.accrued_interest())
+        except Exception as e:  # noqa: BLE001
+            fails.append(('conv-valuation-completes', f'{who}: valuation raised {type(e).__name__}: {e}',
+                          {'contract': who, 'accrual_factors_tail': c.accrual_factors[-2:]}, exc_finding([c], e)))
+            continue
+        dirty, clean = float(v['dirty_pv']), float(v['clean_pv'])
+        rf, rc = float(rp['dirty_rpv01']), float(rp['clean_rpv01'])
+        sgn = -1.0 if c.long_protect else 1.0
+        ind = acc * c.notional * c.running_cpn * sgn
+        sc = abs(prot) + abs(c.running_cpn * c.notional) * (abs(rf) + abs(acc)) + 1e-300
+        info = {'contract': who, 'day_count': c.dc_type.name, 'accrued_fraction_independent': acc}
+        stats['conv.dirty-clean-accrued'] = max(stats.get('conv.dirty-clean-accrued', 0.0), abs((dirty - clean) - ind) / sc)
+        if not (abs((dirty - clean) - ind) <= 1e-10 * sc):
+            fails.append(('conv-dirty-clean-accrued', f'{who}: dirty PV minus clean PV is not the accrued coupon computed with the '
+                          "contract's day count", dict(info, dirty_minus_clean=dirty - clean, accrued_independent=ind,
+                                                       accrued_interest_method=ai), fnd))
+        if not (abs(ai - ind) <= 1e-12 * (abs(ind) + 1e-300)):
+            fails.append(('conv-accrued-interest', f'{who}: accrued_interest() is not day-count fraction x notional x coupon',
+                          dict(info, accrued_interest=ai, expected=ind), None))
+        if not (abs((rf - rc) - acc) <= 1e-12 * (1.0 + abs(rf))):
+            fails.append(('conv-rpv01-gap', f'{who}: dirty_rpv01 - clean_rpv01 is not the day-count fraction from the previous '
+                          'coupon date to step-in', dict(info, gap=rf - rc), fnd))
+        for key, val, r in (('dirty_pv', dirty, rf), ('clean_pv', clean, rc)):
+            want = -sgn * (prot - c.running_cpn * c.notional * r)
+            if not (abs(val - want) <= 1e-12 * sc):
+                fails.append(('conv-value-decomposition', f'{who}: {key} is not +-(protection leg - coupon x risky annuity)',
+                              dict(info, value=val, expected=want), fnd))
+        if not (abs(prem - rf * c.notional * c.running_cpn) <= 1e-12 * sc):
+            fails.append(('conv-premium-leg', f'{who}: premium_leg_pv is not dirty annuity x notional x coupon', dict(info, premium=prem), fnd))
+        want_px = (c.notional - (prot - c.running_cpn * c.notional * rc)) / c.notional * 100.0
+        if not (abs(cpx - want_px) <= 1e-10 * (100.0 + abs(want_px))):
+            fails.append(('conv-clean-price', f'{who}: clean_price is not 100 x (1 - long clean PV / notional)', dict(info, clean_price=cpx, expected=want_px), fnd))
+        if rc != 0.0 and ps == ps and abs(ps) < 1e6:
+            twin = dict(case['trade'] if who == 'trade' else case['quotes'][int(who[6:-1])], coupon=ps)
+            vz = float(_mk_cds(step_in, twin).value(vd, curve, rec)['clean_pv'])
+            stats['conv.par-zero/notional'] = max(stats.get('conv.par-zero/notional', 0.0), abs(vz) / c.notional)
+            if not (abs(vz) <= 1e-10 * (abs(prot) + abs(ps * c.notional * rf) + 1e-300)):
+                fails.append(('conv-par-spread', f'{who}: clean PV at the par spread is not zero', dict(info, par_spread=ps, clean_pv=vz), fnd))
+        # annuity sandwich (rpv01_full_sandwich read on the object): survival-weighted coupons <= dirty annuity <= the same plus
+        # one full accrual on each period's discounted default probability.  SPECIFICATION pairing: payment j carries the accrual
+        # factor of ITS OWN period.  AS CODED: the first coupon is weighted with year_fracs[1] and payment_times[j] is paired with
+        # year_fracs[j] even when a payment date on/before the valuation date was dropped from payment_times.
+        if len(pt) >= 1 and len(yf) >= len(pt) and rate >= 0.0 and shape_ok:   # premise of the theorem: non-increasing survival
+            off = len(yf) - len(pt)
+            q = [Qf(t) for t in pt]
+            z = [Zf(t) for t in pt]
+            dq0 = max(Qf(teff) - q[0], 0.0)
+
+            def sandwich(y_first, y_of):
+                lo_ = q[0] * z[0] * y_first - z[0] * dq0 * max(-(acc + y_first) / 2.0, 0.0) + sum(q[j] * z[j] * y_of(j) for j in range(1, len(pt)))
+                hi_ = (q[0] * z[0] * y_first + z[0] * dq0 * max((acc + y_first) / 2.0, 0.0)
+                       + sum((q[j] * z[j] + z[0] * max(q[j - 1] - q[j], 0.0)) * y_of(j) for j in range(1, len(pt))))
+                return lo_, hi_
+            lower, upper = sandwich(yf[off], lambda j: yf[j + off])
+            inside = lower * (1 - 1e-9) - 1e-12 <= rf <= upper * (1 + 1e-9) + 1e-12
+            if not inside:
+                f2 = fnd
+                if not single and len(yf) > 1:
+                    lc, uc = sandwich(yf[1], lambda j: yf[j])
+                    if lc * (1 - 1e-9) - 1e-12 <= rf <= uc * (1 + 1e-9) + 1e-12 and (yf[1] != yf[off] or off > 0):
+                        f2 = FINDING_MISINDEX
+                fails.append(('conv-annuity-bounds', f'{who}: dirty risky annuity is outside [sum of survival-weighted coupons, that plus one '
+                              'full accrual on each period\'s discounted default probability] with every coupon weighted by its own accrual factor',
+                              dict(info, dirty_rpv01=rf, lower=lower, upper=upper, payments=len(pt), accrual_factors=yf[:4],
+                                   payments_dropped_before_valuation=off), f2))
+        # ---- model correspondence at object level (VAL): accrued fraction = the contract's own day-count fraction
+        if want_ops and len(pt) >= 2 and len(yf) >= 2:
+            scal = [teff, acc, tmat, c.running_cpn, c.notional, 1.0 if c.long_protect else 0.0]
+            ops.append(f'VAL {f2b(rec)} 25 {arr(scal)} {arr(pt)} {arr(yf)} {arr(lt)} {arr(ld)} {arr(times)} {arr(vals)}')
+            want = [rf, rc, prot, dirty, clean, ps, prem, cpx, ai]
+            names = ['dirty_rpv01', 'clean_rpv01', 'prot_leg_pv', 'dirty_pv', 'clean_pv', 'par_spread', 'premium_leg_pv', 'clean_price',
+                     'accrued_interest']
+
+            def chk(got, see, want=want, names=names, sc=sc, who=who, case=case):
+                if got is None or len(got) != len(want):
+                    return f'VAL {who}: driver answered {got}'
+                # PVs are differences of legs: compare relative to the leg sizes; the others relative to themselves
+                tol = [1e-9 * (1 + abs(want[0])), 1e-9 * (1 + abs(want[0])), 1e-9 * sc, 1e-9 * sc, 1e-9 * sc,
+                       1e-9 * sc / (abs(want[1] * case['trade']['notional']) + 1e-300) + 1e-9 * abs(want[5]), 1e-9 * sc,
+                       1e-7 * sc / abs(c.notional) + 1e-9, 1e-12 * (abs(want[8]) + 1e-300)]
+                bad = [(n, g, w) for n, g, w, t in zip(names, got, want, tol) if not (abs(g - w) <= t)]
+                for n, g, w, t in zip(names, got, want, tol):
+                    see('model.VAL.' + n, abs(g - w) / (t / 1e-9 if t > 0 else 1.0) * 1.0 if n != 'accrued_interest' else abs(g - w))
+                if bad:
+                    return f'VAL {who}: model != implementation {bad[:3]} on ' + json.dumps(case, default=str)[:600]
+                return None
+            checks.append(('CDS_methods(VAL)', chk))
+    # ---- the bootstrap fold (BOOT): real `_build_curve` with the solver intercepted vs the Lean fold replayed with the values the
+    # solver left in the knots
+    if want_ops and all(n >= 2 for n in n_pay) and len(calls) == len(quotes):
+        parts, scales = [], []
+        for c in quotes:
+            pt, yf, acc, teff, tmat = _contract_arrays(c, vd)
+            parts.append(f'{arr([teff, acc, tmat, c.running_cpn, c.notional, 1.0 if c.long_protect else 0.0])} {arr(pt)} {arr(yf)}')
+            scales.append(abs(float(c.prot_leg_pv(vd, curve, rec))) + abs(c.running_cpn * c.notional * float(c.risky_pv01(vd, curve)['dirty_rpv01'])) + 1e-300)
+        knots = [cl['left'] for cl in calls]
+        probes = [p for cl in calls for p in cl['probes']]
+        ops.append(f'BOOT {f2b(rec)} 25 {arr(lt)} {arr(ld)} {arr(knots)} {arr(probes)} ' + ' '.join(parts))
+        fin = [float(c.value(vd, curve, rec)['clean_pv']) for c in quotes]
+        n = len(quotes)
+
+        def chkb(got, see, calls=calls, fin=fin, scales=scales, vals=vals.tolist(), n=n, case=case):
+            if got is None or len(got) != 4 * n + n + (n + 1):
+                return f'BOOT: driver answered {None if got is None else len(got)} numbers for {n} pillars'
+            msgs = []
+            for i, cl in enumerate(calls):
+                x0, fl, f1, f2 = got[4 * i: 4 * i + 4]
+                if x0 != cl['x0']:
+                    msgs.append(f'pass {i}: start value model {x0!r} != solver call {cl["x0"]!r}')
+                for nm, g_, w_ in (('f(left)', fl, cl['f_left']), ('f(probe1)', f1, cl['f_probes'][0]), ('f(probe2)', f2, cl['f_probes'][1])):
+                    see('model.BOOT.objective', abs(g_ - w_) / scales[i])
+                    if not (abs(g_ - w_) <= 1e-9 * scales[i]):
+                        msgs.append(f'pass {i}: objective {nm} model {g_!r} != implementation {w_!r}')
+            for i in range(n):
+                g_, w_ = got[4 * n + i], fin[i]
+                see('model.BOOT.final-residual', abs(g_ - w_) / scales[i])
+                if not (abs(g_ - w_) <= 1e-9 * scales[i]):
+                    msgs.append(f'final clean PV of quote {i}: model {g_!r} != implementation {w_!r}')
+            if got[5 * n:] != vals:
+                msgs.append(f'final knot values model {got[5 * n:]} != implementation {vals}')
+            return ('BOOT: ' + '; '.join(msgs[:3]) + ' on ' + json.dumps(case, default=str)[:600]) if msgs else None
+        checks.append(('CDSCurve._build_curve(BOOT)', chkb))
+    return fails, ops, checks, stats
+
+
+def conventions_oracle(ctx, see, quick):
+    from financepy.utils.date import Date
+    from financepy.utils.day_count import DayCountTypes
+    from financepy.utils.error import FinError
+    from financepy.products.credit.cds import CDS
+    rng = ctx.rng('conv')
+    dcs, freqs, cals, bds, dgs = _conv_enums()
+    n_cases = 170 if quick else 2500
+    ops, checks = [], []
+    done = nontriv = 0
+    seen_dc, seen_fq = set(), set()
+    # a CDS rejects ACT_ACT_ICMA (needs a third date); every other member is drawn below
+    try:
+        CDS(Date(7, 5, 2024), '3Y', 0.01, 1e6, True, freqs[0], DayCountTypes.ACT_ACT_ICMA)
+        ctx.cov['ACT_ACT_ICMA_accepted'] = True
+    except FinError:
+        ctx.cov['ACT_ACT_ICMA_accepted'] = False
+    for it in range(n_cases):
+        y = rng.randint(2006, 2034)
+        if it % 2:
+            vd = Date(20, rng.choice([3, 6, 9, 12]), y).add_days(rng.choice([-30, -3, -2, -1, 0, 1, 2, 3, 20]))
+        else:
+            vd = Date(rng.randint(1, 28), rng.randint(1, 12), y)
+        step_in = vd.add_days(rng.choice([0, 0, 0, 0, 1, rng.randint(2, 45)]))
+
+        def conv():
+            return {'freq': rng.choice(freqs).value, 'dc': rng.choice(dcs).value, 'cal': rng.choice(cals).value,
+                    'bd': rng.choice(bds).value, 'dg': rng.choice(dgs).value}
+        shared = conv() if rng.random() < 0.5 else None
+        tenors = rng.choice([['1Y', '3Y', '5Y', '10Y'], ['6M', '2Y', '5Y'], ['5Y'], ['1Y', '2Y', '3Y', '5Y'], ['3M', '1Y'], ['2Y', '7Y']])
+        mats = []
+        for t in tenors:
+            m = step_in.add_tenor(t)
+            m = m.next_cds_date() if rng.random() < 0.7 else m.add_days(rng.randint(-20, 20))
+            if m > step_in.add_days(5) and (not mats or m > mats[-1]):
+                mats.append(m)
+        if not mats:
+            mats = [step_in.add_tenor('1Y').next_cds_date()]
+        base = 10 ** rng.uniform(math.log10(0.002), math.log10(0.08))
+        shape = rng.choice([0.0, 0.15, -0.04])
+        quotes = []
+        for k, m in enumerate(mats):
+            cv = dict(shared or conv())
+            quotes.append(dict(cv, maturity=[m.d, m.m, m.y], coupon=base * (1 + shape * k), notional=1e6, long=True))
+        tm = rng.choice(mats).add_months(rng.choice([0, 0, 3, -3, -12]))
+        if rng.random() < 0.15:
+            tm = step_in.add_days(rng.randint(5, 80))          # short-dated: often a single remaining coupon
+        if tm <= step_in.add_days(2):
+            tm = mats[-1]
+        trade = dict(shared if (shared and rng.random() < 0.5) else conv(), maturity=[tm.d, tm.m, tm.y],
+                     coupon=rng.choice([0.01, 0.05, base * 2.5, 10 ** rng.uniform(-4, -0.5)]),
+                     notional=rng.choice([1.0, 1e6, 10 ** rng.uniform(0, 8)]), long=rng.random() < 0.6)
+        case = {'value_dt': [vd.d, vd.m, vd.y], 'step_in_dt': [step_in.d, step_in.m, step_in.y], 'recovery': rng.choice([0.2, 0.4, 0.4, 0.6]),
+                'flat_rate': rng.choice([0.01, 0.03, 0.05]), 'quotes': quotes, 'trade': trade}
+        with warnings.catch_warnings():      # single-coupon contracts (known finding) divide by a zero / NaN annuity
+            warnings.simplefilter('ignore', RuntimeWarning)
+            fails, o, c, stats = _conv_eval(case, want_ops=it < (120 if quick else 1500))
+        done += 1
+        nontriv += len(quotes) >= 2
+        for q in quotes + [trade]:
+            seen_dc.add(q['dc'])
+            seen_fq.add(q['freq'])
+        for k, v in stats.items():
+            see(k, v)
+        for clause, what, details, finding in fails:
+            ctx.violation(what, dict(case, **details), finding=finding, clause=clause)
+        ops += o
+        checks += c
+    ctx.count('conventions_and_intercepted_bootstrap', n_cases, nontriv,
+              sample={'value_dt': [18, 9, 2026], 'step_in_dt': [18, 9, 2026], 'recovery': 0.4, 'flat_rate': 0.03,
+                      'quotes': [{'maturity': [20, 12, 2029], 'coupon': 0.01, 'freq': 4, 'dc': 7, 'cal': 13, 'bd': 3, 'dg': 2}]})
+    ctx.cov['components']['conventions_and_intercepted_bootstrap']['day_counts_drawn'] = len(seen_dc)
+    ctx.cov['components']['conventions_and_intercepted_bootstrap']['frequencies_drawn'] = len(seen_fq)
+    return ops, checks
+
+
 def replay(ctx, path):
     rp = json.load(open(path))
     v = rp.get('violation')
@@ -384,6 +790,14 @@ def replay(ctx, path):
     from financepy.products.credit.cds import CDS
     from financepy.products.credit.cds_curve import CDSCurve
     cs = v['case']
+    if str(v.get('clause', '')).startswith('conv'):
+        fails, _, _, _ = _conv_eval(cs, want_ops=False)
+        for clause, what, details, finding in fails:
+            print(f'replay: {clause}: {what} {json.dumps(details, default=str)[:400]} (classifier {finding})')
+        if any(f[0] == v['clause'] for f in fails):
+            print(f'VIOLATION property=C09 replay={path}')
+            return 1
+        return 0
     if str(v.get('clause', '')).startswith('reuse'):
         first, second, step_in = Date(*cs['first_valuation_dt']), Date(*cs['second_valuation_dt']), Date(*cs['step_in_dt'])
         mats = [Date(*m) for m in cs['maturities']]
